@@ -99,13 +99,18 @@ type Ctx struct {
 	outcomes   map[string]int64
 	ntCapped   bool
 	curDesc    interface{}
+	// ring holds the descriptors of the cases executed most recently in this worker: if a failing
+	// case passes when replayed alone, it is replayed after them (state leaking between calls).
+	ring    [6]interface{}
+	ringPos int
 }
 
 type violation struct {
-	Index   int64           `json:"index"`
-	Desc    json.RawMessage `json:"desc"`
-	Msg     string          `json:"msg"`
-	Finding string          `json:"finding,omitempty"`
+	Index   int64             `json:"index"`
+	Desc    json.RawMessage   `json:"desc"`
+	Msg     string            `json:"msg"`
+	Finding string            `json:"finding,omitempty"`
+	History []json.RawMessage `json:"history,omitempty"`
 }
 
 type result struct {
@@ -216,10 +221,11 @@ func (c *Ctx) Exec(desc interface{}, f func() *Failure) {
 	c.res.Evaluations++
 	c.res.Traces++
 	fail := Guard(f)
-	if fail == nil {
-		return
+	if fail != nil {
+		c.Report(desc, fail)
 	}
-	c.Report(desc, fail)
+	c.ring[c.ringPos%len(c.ring)] = desc
+	c.ringPos++
 }
 
 // Report records a failure for the case described by desc.
@@ -241,7 +247,17 @@ func (c *Ctx) Report(desc interface{}, fail *Failure) {
 		return
 	}
 	if len(c.res.Violations) < 40 {
-		c.res.Violations = append(c.res.Violations, violation{Index: c.counter - 1, Desc: raw, Msg: fail.Msg, Finding: fail.Finding})
+		v := violation{Index: c.counter - 1, Desc: raw, Msg: fail.Msg, Finding: fail.Finding}
+		if len(c.res.Violations) < 6 {
+			for i := 0; i < len(c.ring); i++ {
+				if d := c.ring[(c.ringPos+i)%len(c.ring)]; d != nil {
+					if b, err := json.Marshal(d); err == nil {
+						v.History = append(v.History, b)
+					}
+				}
+			}
+		}
+		c.res.Violations = append(c.res.Violations, v)
 	}
 }
 
@@ -657,6 +673,9 @@ type replayFile struct {
 	Msg      string          `json:"msg"`
 	Finding  string          `json:"finding,omitempty"`
 	Desc     json.RawMessage `json:"desc"`
+	// History: the cases the same worker executed just before (oldest first). Only used when the
+	// case passes on its own: it is then replayed after them.
+	History []json.RawMessage `json:"history,omitempty"`
 }
 
 func writeReplay(vd, id string, v violation) string {
@@ -664,7 +683,7 @@ func writeReplay(vd, id string, v violation) string {
 	dir := filepath.Join(vd, "replays")
 	_ = os.MkdirAll(dir, 0o755)
 	path := filepath.Join(dir, id+"-"+hex.EncodeToString(sum[:6])+".json")
-	b, _ := json.MarshalIndent(replayFile{Property: id, Msg: v.Msg, Finding: v.Finding, Desc: v.Desc}, "", " ")
+	b, _ := json.MarshalIndent(replayFile{Property: id, Msg: v.Msg, Finding: v.Finding, Desc: v.Desc, History: v.History}, "", " ")
 	_ = os.WriteFile(path, b, 0o644)
 	return path
 }
@@ -728,6 +747,16 @@ func ReplayMain(path string) int {
 		return 1
 	}
 	fail := Guard(func() *Failure { return chk.Replay(rf.Desc) })
+	if fail == nil && len(rf.History) > 0 {
+		// passes alone: replay it as the last step of the short history it was found in
+		for _, h := range rf.History {
+			h := h
+			_ = Guard(func() *Failure { return chk.Replay(h) })
+		}
+		if fail = Guard(func() *Failure { return chk.Replay(rf.Desc) }); fail != nil {
+			fail.Msg = fmt.Sprintf("(passes when run alone, fails after the %d cases executed before it in the same process: state leaks between calls)\n", len(rf.History)) + fail.Msg
+		}
+	}
 	if fail == nil {
 		fmt.Printf("replay %s: case passes\n", path)
 		return 0
